@@ -111,7 +111,10 @@ def history(rng, length, tick_ms, codes_ok=(200, 201, 404), codes_bad=(500, 502,
                 code = rng.choice(codes_bad)
             else:
                 code = rng.choice(codes_ok + codes_bad)
-            steps.append({"op": "finish", "r": r, "code": code})
+            if rng.random() < 0.06:
+                steps.append({"op": "finish", "r": r, "abort": True})     # the protected handler aborts instead of answering
+            else:
+                steps.append({"op": "finish", "r": r, "code": code})
         elif x < 0.8:
             rid += 1
             running.append(rid)
